@@ -176,7 +176,11 @@ def parse_trace(flat):
             recs.append(("final", flat[i+1:])); break
         if tag not in ARITY: raise CheckError("bad trace tag %r at %d" % (tag, i))
         n = ARITY[tag]
-        recs.append((names[tag],) + tuple(flat[i+1:i+n]))
+        rec = (names[tag],) + tuple(flat[i+1:i+n])
+        if tag == 1:
+            # the harness prints u64 values through i64: undo the wrap of values >= 2^63 (-1 stays "nothing written")
+            rec = rec[:4] + tuple(v + (1 << 64) if v < -1 else v for v in rec[4:6]) + rec[6:]
+        recs.append(rec)
         i += n
     return recs
 
